@@ -75,6 +75,7 @@ def run_cases(ctx, verdict, fl, n_engines, n_rows, profiles, activations, weight
             except Exception:  # the oracle does not cover this case (e.g. a configuration that raises)
                 want = want_leak = None
             raised = None
+            fll_before = str(engine)
             with vlib.patch_observed():
                 vlib.RECORDER.reset()
                 try:
@@ -84,6 +85,10 @@ def run_cases(ctx, verdict, fl, n_engines, n_rows, profiles, activations, weight
                     raised = ex
                 tbl = vlib.RECORDER.take()
             stats["rows"] += 1
+            if str(engine) != fll_before:
+                verdict.add_violation("pipeline:process-changes-configuration", "Engine.process() changed the engine's configuration (its FuzzyLite Language text differs before and after)",
+                                      {"engine_fll": fll_before, "after": str(engine), "inputs": row})
+                nviol += 1
             if raised is not None:
                 stats["raised"] += 1
                 stats["error_classes"][type(raised).__name__] = stats["error_classes"].get(type(raised).__name__, 0) + 1
